@@ -155,7 +155,15 @@ class ElectronRepulsionIntegral(BaseFourIndexSymmetric):
         if not isinstance(cont_four, GeneralizedContractionShell):
             raise TypeError("`cont_four` must be a `GeneralizedContractionShell` instance.")
 
-        # TODO: we can probably swap the contractions to get the optimal time or memory usage
+        # The electron-transfer recursion multiplies rounding errors by (a + b) / (c + d) for every
+        # unit of angular momentum it moves to the second pair, so the pair with the larger
+        # exponents is treated as the second pair and the block is transposed back at the end.
+        swapped = (np.max(cont_one.exps) + np.max(cont_two.exps)) > (
+            np.max(cont_three.exps) + np.max(cont_four.exps)
+        )
+        if swapped:
+            cont_one, cont_two, cont_three, cont_four = cont_three, cont_four, cont_one, cont_two
+
         if cont_one.angmom == cont_two.angmom == cont_three.angmom == cont_four.angmom == 0:
             integrals = _compute_two_elec_integrals_angmom_zero(
                 cls.boys_func,
@@ -198,7 +206,8 @@ class ElectronRepulsionIntegral(BaseFourIndexSymmetric):
             )
         integrals = np.transpose(integrals, (4, 0, 5, 1, 6, 2, 7, 3))
 
-        # TODO: if we swap the contractions, we need to unswap them here
+        if swapped:
+            integrals = np.transpose(integrals, (4, 5, 6, 7, 0, 1, 2, 3))
 
         return integrals
 
